@@ -156,6 +156,9 @@ func (b *broker) react(c *simConn, p *Packet, mode respMode) {
 		return
 	}
 	sess := bc.sess
+	if b.w.scn.Mute != nil && b.w.scn.Mute(p) {
+		return
+	}
 	switch p.Type {
 	case tPUBLISH:
 		f := fwd{QoS: p.QoS, ID: p.ID, Topic: p.Topic, Body: string(p.Body), Retain: p.Retain, Dup: p.Dup, Conn: c.id, Step: b.w.step}
